@@ -3,7 +3,7 @@
    pp_f_terms, ss_*, reset_pp, save_pp, set_inert, unset_inert, equal_body, c_* are REGENERATED from the
    checked source tree (coq/Gen/Gen_C03_model.v) by translator/c03_gen.py on every run. *)
 From Coq Require Import QArith Reals String List Qreals.
-Require Import IPV.C03.Syntax IPV.C03.Hetero IPV.C03.Spec IPV.C03.SpecProofs IPV.Gen.Gen_C03_model IPV.C03.Tie.
+Require Import IPV.C03.Syntax IPV.C03.SymExec IPV.C03.Hetero IPV.C03.Spec IPV.C03.SpecProofs IPV.Gen.Gen_C03_model IPV.C03.Tie.
 Import ListNotations.
 Open Scope string_scope.
 Open Scope R_scope.
@@ -131,6 +131,30 @@ Theorem ideal_activity_is_fraction : forall fun1 fun2 (e : env),
     wp fun1 fun2 ss_ideal_body e (fun e1 _ => e1 ss_lambda_var = 0).
 Proof. exact Tie.ideal_activity_is_fraction. Qed.
 Print Assumptions ideal_activity_is_fraction.
+
+(* Guggenheim activity coefficients and mole fractions of a binary non-ideal solid solution (ss_binary) *)
+Theorem ss_binary_guggenheim : forall fun1 fun2 (e : env),
+    let nc := e "ss_ptr.ss_comps[0].moles" in
+    let nb := e "ss_ptr.ss_comps[1].moles" in
+    let n := e "ss_ptr.total_moles" in
+    let a0 := e "ss_ptr.a0" in let a1 := e "ss_ptr.a1" in
+    let xb := nb / n in let xc := nc / n in
+    e "LOG_10" <> 0 -> n <> 0 ->
+    ~ (e "ss_ptr.miscibility" <> 0 /\ xb > e "ss_ptr.xb1" /\ xb < e "ss_ptr.xb2") ->
+    wp fun1 fun2 ss_binary_body e (fun e1 _ =>
+      e1 "ss_ptr.ss_comps[0].fraction_x" = xc /\ e1 "ss_ptr.ss_comps[1].fraction_x" = xb /\
+      e1 "ss_ptr.ss_comps[0].log10_lambda" * e "LOG_10" = xb * xb * (a0 - a1 * (3 - 4 * xb)) /\
+      e1 "ss_ptr.ss_comps[1].log10_lambda" * e "LOG_10" = xc * xc * (a0 + a1 * (4 * xb - 1))).
+Proof. exact Tie.ss_binary_guggenheim. Qed.
+Print Assumptions ss_binary_guggenheim.
+
+Theorem ss_binary_fractions_sum : forall fun1 fun2 (e : env),
+    e "ss_ptr.total_moles" = e "ss_ptr.ss_comps[0].moles" + e "ss_ptr.ss_comps[1].moles" ->
+    e "ss_ptr.total_moles" <> 0 ->
+    wp fun1 fun2 ss_binary_body e (fun e1 _ =>
+      e1 "ss_ptr.ss_comps[0].fraction_x" + e1 "ss_ptr.ss_comps[1].fraction_x" = 1).
+Proof. exact Tie.ss_binary_fractions_sum. Qed.
+Print Assumptions ss_binary_fractions_sum.
 
 (* the executable checker applied to what the implementation reports is sound for the property *)
 Theorem check_hetero_sound : forall c : hcase, case_ok c = true -> hetero_valid c.
